@@ -68,6 +68,23 @@ def corpus(rng):
     return ms
 
 
+def spellings():
+    """every legal spelling of the Content-Length line: long / compact name in any case, optional blanks before the
+    colon (HCOLON = *( SP / HTAB ) ":" SWS), optional blanks after it and after the number"""
+    out = []
+    req = "MESSAGE sip:b@example.org SIP/2.0"
+    body = b"hello\r\n\r\nl: 3\r\nworld"
+    for name in ("Content-Length", "content-length", "CONTENT-LENGTH", "CoNtEnT-lEnGtH", "l", "L"):
+        for pre in ("", " ", "\t", " \t "):
+            for post in ("", " ", "  \t"):
+                for tail in ("", " "):
+                    line = "%s%s:%s%d%s" % (name, pre, post, len(body), tail)
+                    hs = list(BASE_H)
+                    hs.insert(2, line)
+                    out.append((req + CRLF + CRLF.join(hs) + CRLF + CRLF).encode() + body)
+    return out
+
+
 def cuts_to_chunks(data, cuts):
     out = []
     prev = 0
@@ -107,6 +124,14 @@ def gen_cases(rng, tier):
                     k = rng.randrange(1, 6)
                     cases.append(_case("ck-%d" % n, stream, rng.sample(range(1, len(stream)), min(k, len(stream) - 1)), [a, b])); n += 1
                 cases.append(_case("drib-%d" % n, stream, list(range(1, len(stream))), [a, b])); n += 1
+    # every spelling of Content-Length, followed by a keep-alive and another message
+    for k, m in enumerate(spellings()):
+        if tier == "quick" and k % 3 != (rng.randrange(3) if False else 0) and not (b"l " in m or b"L\t" in m or b"l\t" in m or b"L " in m):
+            continue
+        stream = m + b"\r\n" + ms[0]
+        cases.append(_case("sp-%d" % n, stream, [], [m, ms[0]])); n += 1
+        cases.append(_case("spd-%d" % n, stream, list(range(1, len(stream))), [m, ms[0]])); n += 1
+        cases.append(_case("spc-%d" % n, stream, rng.sample(range(1, len(stream)), 2), [m, ms[0]])); n += 1
     # cuts right after the CRLF of a non-final Content-Length line (where the lost-length defect lived)
     m = ms[2]
     idx = m.find(b"\r\n", m.lower().find(b"content-length")) + 2
